@@ -7,7 +7,7 @@ import vlib
 PROP = "C17"
 PROPS_FILES = ["Nic/Props/C17.lean", "Nic/Props/TieMisc.lean"]
 # Go functions translated from /repo on every run (tools/gofn) and proved equal to the model in the Tie file above
-TIE_FUNCS = ['internal/k8s/utils.go:isChallengeIngress', 'internal/k8s/appprotectdos/app_protect_dos_configuration.go:getNsName']
+TIE_FUNCS = ['internal/k8s/utils.go:isChallengeIngress', 'internal/k8s/appprotectdos/app_protect_dos_configuration.go:getNsName', 'internal/k8s/appprotect_waf.go:isMatchingResourceRef']
 HARNESS = "vh-k8s"
 PARALLEL = 12
 RULE = ("shape-directed objects — Ingress (1-2 per case; rules 0..2, http nil / paths 0..2, service / resource backends, default backend, TLS, "
